@@ -227,7 +227,7 @@ def make_initializer(spec):
         tok = threading.Lock()  # the process object cannot be pickled: every spawn fails
     return {
         "initializer": lv_tasks.init,
-        "initargs": (tok, cf, spec.get("fail_on"), spec.get("leak0", False), spec.get("fail_exc", "RuntimeError")),
+        "initargs": (tok, cf, spec.get("fail_on"), spec.get("leak0", False), spec.get("fail_exc", "RuntimeError"), spec.get("slow_exit", 0)),
     }
 
 
